@@ -147,7 +147,7 @@ var specs = []spec{
 		Assumptions: commonAssumptions},
 	{ID: "C15-muxer", Prop: "C15", Hidden: true, Pkg: ".", Level: "exploration", Procs: 2, Assumptions: e1Assumptions},
 	{ID: "C15", Pkg: "pkg/playlist", Level: "exploration", Procs: 2, Also: []string{"C15-muxer"},
-		Rule:        "(a) decoder: every truncation, single-byte deletion, substitution by each of 16 structural bytes (incl. space and tab), insertion of 4 structural bytes, line deletion / duplication / swap / replacement by white space of every text of the stored fuzz corpora and in-code seeds, plus every sentence of 4 (5) lines over a 26-line menu of valid and degenerate tags (both preload-hint types, a duration that rounds to zero seconds): no panic, and on success the structural guarantees callers rely on and a successful Marshal; (b) encoder: the strict RFC 8216 / 8216bis grammar checker on Marshal of every C14 value; (c) every playlist a muxer serves: media, multivariant, blocking and delta playlists fetched after every write of depth-3 (4) write trees over the E1 configuration grid and of long words with query strings (incl. one that needs escaping), checked with the same grammar and with the library's own decoder; distinct = distinct accepted texts / marshalled texts",
+		Rule:        "(a) decoder: every truncation, single-byte deletion, substitution by each of 16 structural bytes (incl. space and tab), insertion of 4 structural bytes, line deletion / duplication / swap / replacement by white space of every text of the stored fuzz corpora and in-code seeds, plus every sentence of 4 (5) lines over a 27-line menu of valid and degenerate tags (both preload-hint types, a duration that rounds to zero seconds, EXT-X-SKIP): no panic, and on success the structural guarantees callers rely on and a successful Marshal; (b) encoder: the strict RFC 8216 / 8216bis grammar checker on Marshal of every C14 value; (c) every playlist a muxer serves: media, multivariant, blocking and delta playlists fetched after every write of depth-3 (4) write trees over the E1 configuration grid and of long words with query strings (incl. one that needs escaping), checked with the same grammar and with the library's own decoder; distinct = distinct accepted texts / marshalled texts",
 		Assumptions: commonAssumptions},
 	{ID: "C08", Pkg: ".", Level: "model_checking", Instrument: true, RacePass: true, Procs: 1,
 		InstrPkgs:   []string{".", "pkg/storage"},
